@@ -561,7 +561,7 @@ def correspond_front(ctx, fcases, per_file=500):
                 f"mkF {flit(a)} {flit(t)} {flit(r)} {flit(h)}" for a, t, r, h in fcases[i:i + per_file]) + "].\n")
             f.write("Eval vm_compute in (ffailing cases).\n")
         files.append((name, i))
-    res = ctx.run_case_files([f for f, _ in files], timeout=900, jobs=16)
+    res = ctx.run_case_files([f for f, _ in files], timeout=900, jobs=10)
     codes = {}
     for name, base in files:
         r = res[name]
@@ -581,7 +581,7 @@ def correspond(ctx, cases, per_file=500):
         name = f"cases_{i // per_file:04d}.v"
         write_case_file(os.path.join(ctx.build, name), cases[i:i + per_file])
         files.append((name, i))
-    res = ctx.run_case_files([f for f, _ in files], timeout=900, jobs=16)
+    res = ctx.run_case_files([f for f, _ in files], timeout=900, jobs=10)
     codes = {}
     for name, base in files:
         r = res[name]
